@@ -5,10 +5,10 @@ package main
 
 import (
 	"fmt"
-	"os"
 	"go/constant"
 	"go/token"
 	"go/types"
+	"os"
 	"sort"
 	"strings"
 
@@ -16,20 +16,20 @@ import (
 )
 
 type Obligation struct {
-	Name      string         `json:"name"`
-	Kind      string         `json:"kind"`
-	Props     []string       `json:"props,omitempty"`
-	Func      string         `json:"func"`
-	Src       string         `json:"clause,omitempty"`
-	Where     string         `json:"where,omitempty"`
-	Instances int            `json:"instances"`
-	Status    string         `json:"status"`
-	Backends  map[string]int `json:"backends"`
-	Ms        float64        `json:"solver_ms"`
-	FailPath  []int          `json:"fail_path,omitempty"`
+	Name      string            `json:"name"`
+	Kind      string            `json:"kind"`
+	Props     []string          `json:"props,omitempty"`
+	Func      string            `json:"func"`
+	Src       string            `json:"clause,omitempty"`
+	Where     string            `json:"where,omitempty"`
+	Instances int               `json:"instances"`
+	Status    string            `json:"status"`
+	Backends  map[string]int    `json:"backends"`
+	Ms        float64           `json:"solver_ms"`
+	FailPath  []int             `json:"fail_path,omitempty"`
 	Model     map[string]string `json:"model,omitempty"`
-	Raw       string         `json:"solver_output,omitempty"`
-	Inputs    *ModelInputs   `json:"inputs,omitempty"`
+	Raw       string            `json:"solver_output,omitempty"`
+	Inputs    *ModelInputs      `json:"inputs,omitempty"`
 }
 
 type loopInfo struct {
@@ -42,38 +42,38 @@ type loopInfo struct {
 }
 
 type FnCtx struct {
-	lazyAx map[*Axiom]int
-	eng       *Engine
-	fn        *ssa.Function
-	con       *Contract
-	sol       *Solver
-	nfresh    int
-	obls      map[string]*Obligation
-	oblOrder  []string
-	heapSorts map[string]string
-	loops     map[*ssa.BasicBlock]*loopInfo
-	entry     *State
-	paths     int
-	maxPaths  int
-	unsup     map[string]bool
-	notes     map[string]bool
-	params    map[string]*Val
-	paramList []*Val
-	frameTgts []*assignTarget
-	aborted   bool
-	defaultInvLoops int
-	covers    map[string]bool
-	wantProp  string
-	keySorts  map[string]string
-	locksTouched map[string]bool
+	lazyAx           map[*Axiom]int
+	eng              *Engine
+	fn               *ssa.Function
+	con              *Contract
+	sol              *Solver
+	nfresh           int
+	obls             map[string]*Obligation
+	oblOrder         []string
+	heapSorts        map[string]string
+	loops            map[*ssa.BasicBlock]*loopInfo
+	entry            *State
+	paths            int
+	maxPaths         int
+	unsup            map[string]bool
+	notes            map[string]bool
+	params           map[string]*Val
+	paramList        []*Val
+	frameTgts        []*assignTarget
+	aborted          bool
+	defaultInvLoops  int
+	covers           map[string]bool
+	wantProp         string
+	keySorts         map[string]string
+	locksTouched     map[string]bool
 	reachableReturns int
-	exercised map[*AtCall]bool
-	readLog   *[]string
-	readSeen  map[string]string
-	ipdomCache map[*ssa.Function]map[*ssa.BasicBlock]*ssa.BasicBlock
-	noMerge   bool
-	merges    int
-	joinCache map[joinKey]*ssa.BasicBlock
+	exercised        map[*AtCall]bool
+	readLog          *[]string
+	readSeen         map[string]string
+	ipdomCache       map[*ssa.Function]map[*ssa.BasicBlock]*ssa.BasicBlock
+	noMerge          bool
+	merges           int
+	joinCache        map[joinKey]*ssa.BasicBlock
 }
 
 type callFrame struct {
